@@ -262,6 +262,10 @@ class TensorDomain(SpecInterp):
         if name in ("math.log", "math.exp", "math.sqrt") and args and isinstance(args[0], (int, float)):
             import math
             return getattr(math, name.split(".")[1])(args[0])
+        if name in ("math.log", "math.exp", "math.sqrt", "math.log1p", "math.expm1", "math.fabs") and args and isinstance(args[0], AV):
+            # scalar functions of a value taken out of a tensor (`x.item()`): propagated like the element-wise torch function
+            short = {"fabs": "abs"}.get(name.split(".")[1], name.split(".")[1])
+            return self.t_unary(short if short in UNARY_TORCH else "exp", self.lift(args[0]), (), {})
         if name in ("operator.add", "operator.sub", "operator.mul", "operator.truediv"):
             return self.abs_binop({"add": ast.Add(), "sub": ast.Sub(), "mul": ast.Mult(), "truediv": ast.Div()}[name.split(".")[1]], args[0], args[1])
         # configuration / dtype / device queries take no tensor: their result is a plain opaque constant in every domain
